@@ -92,17 +92,25 @@ def inv (s : State) : Bool :=
     live pipeSys s drainerStop || live pipeSys s drainerStale) &&
   (!Nat.beq (s.pc reader) Gen.pipeReader_next || onExitPath pipeSys s writer)
 
-/-- the writer can run to its return on its own (a search over its strict, non-panicking moves; everybody else frozen) -/
-def writerCanFinish (s : State) : Bool := canReach pipeSys 100 [writer] (halted pipeSys · writer) s
+/-- the goroutines of the episode can, on their own, bring the writer to its return. (Since the repair of finding F21 a
+request that was written is ALWAYS reported on `resultCh`, also when the pipeline is being stopped — so the writer may have to wait
+for the reader, which drains `resultCh` until it is closed on every exit: the writer does not finish alone any more.) -/
+def writerCanFinish (s : State) : Bool := canReach pipeSys 300 goroutines (halted pipeSys · writer) s
 
 /-- the goroutines of the episode can bring it to its end on their own -/
 def episodeCanFinish (s : State) : Bool := canReach pipeSys 300 goroutines allDone s
 
-/-- the can-finish claims, of EVERY reachable state: the writer once stopped (or once the reader left), the whole episode once
-the leader closed `r.stopCh` -/
+/-- no drainer goroutine has delivered its result yet. (After a drainer delivered, the skeleton cannot tell a clean drain — the
+value on `drained` is nil, `resultCh` was closed, the writer HAS finished — from a failed one — the repaired code then waits in
+`for range resultCh {}`: the value is erased, and the skeleton also takes the "nil" branch after an error. Those artefact states
+are excluded from the can-finish claims; see `RaftGen/Notes/PipeObservations.lean`.) -/
+def noDrainerDone (s : State) : Bool := !halted pipeSys s drainerStop && !halted pipeSys s drainerStale
+
+/-- the can-finish claims, of every reachable state in which the reader is still in the episode and no drainer has delivered:
+the writer once the pipeline is stopped, the whole episode once the leader closed `r.stopCh` -/
 def alwaysLive (s : State) : Bool :=
-  (!((s.isClosed stopCh || readerLeft s) && !writerWaitsForLeader s) || writerCanFinish s) &&
-  (!s.isClosed rStopCh || episodeCanFinish s)
+  (!(s.isClosed stopCh && !readerLeft s && noDrainerDone s && !writerWaitsForLeader s) || writerCanFinish s) &&
+  (!(s.isClosed rStopCh && !readerLeft s && noDrainerDone s) || episodeCanFinish s)
 
 /-- the reader has returned from `replicate()` and the writer is about to execute / executing `writeAppendEntriesReq` -/
 def writerOutlivesReader (s : State) : Bool :=
